@@ -67,12 +67,24 @@ func (r *Restoration) Apply(res *pbresource.Resource) error {
 // Commit the restoration. Replaces the in-memory database wholesale and closes
 // any watches.
 func (r *Restoration) Commit() {
+	// Carry the event index over into the new database so that event indexes
+	// keep increasing across a restore: the publisher's topic buffers survive
+	// the restore, and a new subscriber must not mistake their (pre-restore)
+	// head for an event newer than its snapshot.
+	rtx := r.s.txn(false)
+	idx, err := currentEventIndex(rtx)
+	rtx.Abort()
+	if err == nil {
+		_ = r.tx.Insert(tableNameMetadata, meta{Key: metaKeyEventIndex, Value: idx})
+	}
 	r.tx.Commit()
 
 	r.s.mu.Lock()
-	defer r.s.mu.Unlock()
-
 	r.s.db = r.db
+	r.s.mu.Unlock()
+
+	// Must not be called with s.mu held: Subscribe holds the publisher's lock
+	// while its snapshot handler (watchSnapshot) takes s.mu.
 	r.s.pub.RefreshTopic(eventTopic)
 }
 
